@@ -23,7 +23,7 @@ CHECKS = {
     'C03': dict(
         engine='E1 bounded-exhaustive program enumeration on the real binary',
         technique='bounded-exhaustive enumeration of all operator/status programs up to a length, executed by the real binary and compared step by step with a reference interpreter (no sampling)',
-        text='All programs p1 op ... pn with op in {; && ||} and statuses {0,1} up to n = 5 (thorough 6), all programs up to n = 2 (3) with statuses {0,1,2,255}, decoy variants with quoted/escaped operators and two-stage pipelines as members, run by the real binary with -c and as script files; the record sequence, every $? probe and the process exit status must equal a reference interpreter.',
+        text='All programs p1 op ... pn with op in {; && ||} and statuses {0,1} up to n = 5 (thorough 6), all programs up to n = 2 (3) with statuses {0,1,2,255}, decoy variants with quoted/escaped operators, two-stage pipelines as members, and members of ten kinds (external, assignment only, builtin ok/failing, cd ok/failing, export, not found, pipeline ending in a builtin; all programs of up to 2 members over all kinds and of 3 over five (thorough all) kinds, with and without a final $? probe), run by the real binary with -c and as script files; the record sequence, every $? probe and the process exit status must equal a reference interpreter.',
         note='Programs longer than the bound and the interactive entry point are outside; every pipeline is a recording helper program.',
         ref='DESIGN.md §4 C03'),
     'C04': dict(
@@ -65,8 +65,8 @@ CHECKS = {
     'C11': dict(
         engine='E1 bounded-exhaustive enumeration of output texts x spellings x placements x contexts on the real binary',
         technique='bounded-exhaustive enumeration of all output texts of up to 2 atoms over a 12-atom alphabet x both spellings x placements x quoting contexts, executed by the real binary with a recording helper (exactly-once check) against the literal-splice reference',
-        text='All output texts of up to 2 atoms over {x blank $1 ${x} $A backslash newline * {a,b} ) ( .+} plus trailing-newline variants are produced by a recording helper and substituted with $(...) and backquotes as whole word / at word start / middle / end, unquoted and double-quoted, as assignment value and as here-string operand; special inner commands: pipeline, builtin, failing, not found, syntactically invalid, nested, two substitutions in one word and line. The real binary must pass exactly head + output-without-trailing-newlines + tail (byte-exact, one argument in double quotes), run the inner command exactly once, show variables to it, give a diagnostic and an empty replacement for unusable inner commands, never hang, create no file.',
-        note='Atoms and lengths are the bound; unquoted results compared only for outputs without leading/trailing blanks; one open known finding (backquote substitution at the start of an unquoted word followed by text).',
+        text='All output texts of up to 2 atoms over {x blank $1 ${x} $A backslash newline * {a,b} ) ( .+} plus trailing-newline variants are produced by a recording helper and substituted with $(...) and backquotes as whole word / at word start / middle / end, unquoted and double-quoted, as assignment value and as here-string operand; special inner commands: pipeline, builtin, function, failing, not found, syntactically invalid, nested, two substitutions in one word and line; the substituted word next to other words of every quoting kind (8 kinds before x 6 after: plain, single-quoted, double-quoted, escaped dollar, variable, another substitution), which must keep their value and position. The real binary must pass exactly head + output-without-trailing-newlines + tail (byte-exact, one argument in double quotes), run the inner command exactly once, show variables to it, give a diagnostic and an empty replacement for unusable inner commands, never hang, create no file.',
+        note='Atoms and lengths are the bound; unquoted results compared only for outputs without leading/trailing blanks.',
         ref='DESIGN.md §4 C11'),
     'C12': dict(
         engine='E1 bounded-exhaustive input sweep (in-process plan) + real binary',
@@ -119,7 +119,7 @@ CHECKS = {
     'C20': dict(
         engine='E5 pty session explorer on the real interactive binary (real line editor and completer)',
         technique='bounded-exhaustive enumeration of all file names up to a length over the special-character alphabet x quoting contexts, completed with TAB in the real interactive binary on a pseudo-terminal and read back through a recording helper',
-        text='Every name of length 1 and 2 (thorough: also 3 in the unquoted context) over a 27-character alphabet of shell-special characters, preceded by a unique prefix, is created as a file (or as a directory for cd); the prefix is typed unquoted, after an open single quote and after an open double quote, TAB and Enter are pressed in the real interactive cicada on a pty: the helper must receive exactly the entry name (cd must enter exactly that directory). Candidate lists (TAB TAB) on a shared-prefix population must offer exactly the entries with the typed prefix, directories only after cd. Failures inside a batch are believed only when reproduced alone in a fresh session.',
+        text='Every name of length 1 and 2 (thorough: also 3 in the unquoted context) over a 27-character alphabet of shell-special characters, and 40 structured names (backquote pair, $(x), ${x}, brace group, range, embedded quotes ...) in every context, preceded by a unique prefix, is created as a file (or as a directory for cd); the prefix is typed unquoted, after an open single quote and after an open double quote, TAB and Enter are pressed in the real interactive cicada on a pty: the helper must receive exactly the entry name (cd must enter exactly that directory). Candidate lists (TAB TAB) on a shared-prefix population must offer exactly the entries with the typed prefix, directories only after cd. Failures inside a batch are believed only when reproduced alone in a fresh session.',
         note='Single-candidate completion per prefix; completion end is detected by terminal quiescence (40 ms); names longer than the bound are outside.',
         ref='DESIGN.md §4 C20'),
     'C07': dict(
